@@ -1,8 +1,10 @@
 #!/bin/bash
-# tools/owncheck.sh : every seeded defect against the check named in its meta.json (detected_by.check); one line each
+# tools/owncheck.sh [Cxx...] : every seeded defect (of the named properties; default all) against the check named in
+# its meta.json (detected_by.check); one line each
 cd "$(dirname "$0")/.."
 for d in seeded/*/; do
   id=$(basename $d)
+  if [ $# -gt 0 ]; then case " $* " in *" ${id%%-*} "*) ;; *) continue;; esac; fi
   [ -f $d/meta.json ] || continue
   chk=$(python3 -c "import json;print(json.load(open('$d/meta.json'))['detected_by']['check'].split()[1])")
   out=$(tools/mutant.sh $d/patch.diff $chk 2>&1 | grep -v warning)
